@@ -9,7 +9,7 @@ import nodecheck
 from nodecheck import Obs, kv, parse_msg
 
 PROP = "C07"
-MODULES = ["DV.Properties.C07"]
+MODULES = ["DV.Properties.C07", "DV.Properties.C07Hist"]
 KEEP = {"OUT": None}
 
 
@@ -126,6 +126,17 @@ def scenarios(rng: random.Random, n: int, depth: int) -> list[str]:
             out.append(pre + f" | rx 0 {nodegen.dwr(n(), e1)} | rx {c2} DW:144:0:{n()}:{e1}:oh=peer1.x,or={nodegen.REALM} | rx {c2} {nodegen.dwr(n(), n())}")
             out.append(pre + f" | rx 0 {nodegen.ccr(n(), e2)} | ans 0 0 2001 | rx {c2} {nodegen.ccr(n(), e2, flags=208)} | rx {c2} {nodegen.dwr(n(), n())}")
             out.append(pre + f" | rx 0 {nodegen.unk(n(), e2, app=77)} | rx {c2} {nodegen.unk(n(), e2, app=77, flags=144)} | rx {c2} {nodegen.dwr(n(), n())}")
+    # a defective answer (its handling raises) bearing the very identifiers of a request of the peer that is still with the
+    # application: nothing goes out in reaction to it, and the application's answer still gets through afterwards
+    for cfgn in ("basic", "two", "rq"):
+        pre = nodegen.CONFIGS[cfgn] + " | start | acc | rx 0 " + nodegen.cer("peer1.x", "4", n(), n())
+        for mk in (lambda h_, e_: nodegen.cea(2001, None, h_, e_), lambda h_, e_: nodegen.cca(h_, e_, "peer1.x", drop=("rc",)),
+                   lambda h_, e_: nodegen.cea(2001, "peer1.x", h_, e_), lambda h_, e_: nodegen.cea(3010, None, h_, e_)):
+            h1, e1 = n(), n()
+            out.append(pre + f" | rx 0 {nodegen.ccr(h1, e1)} | rx 0 {mk(h1, e1)} | rx 0 {nodegen.dwr(n(), n())} | ans 0 0 2001 | "
+                             f"rx 0 {nodegen.dwr(n(), n())}")
+            h1, e1 = n(), n()
+            out.append(pre + f" | rx 0 {nodegen.unk(h1, e1, app=4)} | rx 0 {mk(h1, e1)} | rx 0 {nodegen.dwr(n(), n())}")
     # defective answers on connections in every state (corpus of past findings first)
     base = nodegen.CONFIGS["out"]
     out.insert(0, base + " | start ok,ok | rx 0 " + nodegen.cea(2001, None, 2001, 268435464))
